@@ -36,6 +36,7 @@ def instances(quick):
             'below_nyq': [1, 3] if ny >= 2 else [1, 2],
             'at_nyq': [1, 2 * ny] if ny >= 1 and 2 * ny > 1 else [1, 3],
             'above0': [3, 5, 2 * ny + 3],
+            'above0_even': list(range(2, 2 * ny + 5, 2)),        # integer edges starting above 0: modes sit exactly on every edge
         }
         mus = {1: [[0, 1], [1, 1]], 2: [[0, 1], [1, 2], [1, 1]], 3: [[0, 1], [1, 3], [2, 3], [1, 1]], 4: [[0, 1], [1, 4], [2, 4], [3, 4], [1, 1]]}
         pis = {'below': [0, 1, 2] if ny >= 2 else [0, 1], 'odd': [0, 3, 6], 'even': list(range(0, 2 * ny + 1, 2)) if ny >= 1 else [0, 2],
@@ -139,6 +140,7 @@ def run(chk):
             payload = dict(inst=c)
             # the model itself must agree (A = D); if TLC says no, the real code decides whether it is a defect
             assign = {}
+            edge_obs = {}
             try:
                 ones = np.ones((n, n, kz))
                 _, counts_all, _, cpoles, _ = call(ones, nthread=1)
@@ -172,11 +174,20 @@ def run(chk):
                         what = f'mode ({i},{j},{k}) counted in bin ({b},{m}); expected k-bin {kb}, {"mu" if c["kind"] == "kmu" else "pi"}-bin {mb}'
                     elif mult != cell['mult']:
                         what = f'mode ({i},{j},{k}) counted {mult} times; it represents {cell["mult"]} mode(s) of the full mesh'
+                # modes with the same |k| that sit exactly on a k edge must all be treated alike (the comparison is
+                # integer-exact in the code, so the side is a convention, not rounding)
+                if len(kb) > 1 and 0 not in mb:
+                    v4 = 4 * (sgn(i, n) ** 2 + sgn(j, n) ** 2 + (k * k if c['kind'] == 'kmu' else 0))
+                    edge_obs.setdefault(v4, set()).add(assign[(i, j, k)][0] if (i, j, k) in assign else 0)
                 if what:
                     kk = 'mult' if 'times' in what else ('dropped' if 'not counted' in what else ('outside' if 'outside' in what else 'wrongbin'))
                     plane = 'nyq' if (n % 2 == 0 and k == n // 2) else ('k0' if k == 0 else 'mid')
                     chk.violation(f'{tag}-{kk}-{plane}', f'{c["kind"]} n={n} H={c["H"]} {"ME=" + str(c.get("ME")) if c["kind"] == "kmu" else "PH=" + str(c.get("PH"))}: {what}',
                                   dict(inst=c, cell=cell))
+            for v4, obs in edge_obs.items():
+                if len(obs) > 1:
+                    chk.violation(f'{tag}-edge-inconsistent', f'{c["kind"]} n={n} H={c["H"]}: modes with the same |k|^2={v4 / 4} lying exactly on a bin edge are treated '
+                                  f'differently (observed k-bins {sorted(obs)}, 0 = not counted)', dict(inst=c, v4=v4))
             # counts of one full call = sum of probed multiplicities; thread invariance
             exp_counts = np.zeros((nb, nm), dtype=np.int64)
             for (b, m, mult) in assign.values():
